@@ -1,7 +1,7 @@
 """Decision procedure shared by C07 and C08 (one transaction / entity-event model, one harness
 executor; the properties differ in theorems, generators and in what counts as non-trivial).
 
-Case line:  E nP reg* nC reg* txl [I nIxP ixreg* nIxC ixreg*] T ntx tx*   (see lean/StorageModel/Tx/Wire.lean)
+Case line:  E nP reg* nC reg* txl [I nIxP ixreg* nIxC ixreg*] [D nD reg* nIxD ixreg*] T ntx tx*   (see lean/StorageModel/Tx/Wire.lean)
 
 Implementation output (per transaction):  r= same= runs= pre= pa= sync= async= ca= dump=
   * compared verbatim with the Lean engine model (run under the return table regenerated from
@@ -83,6 +83,11 @@ def parse_case(line):
         ix_p = [ixreg() for _ in range(int(nxt()))]
         ix_c = [ixreg() for _ in range(int(nxt()))]
         t0 = nxt()
+    regs_d, ix_d = [], []
+    if t0 == "D":
+        regs_d = [reg() for _ in range(int(nxt()))]
+        ix_d = [ixreg() for _ in range(int(nxt()))]
+        t0 = nxt()
     assert t0 == "T"
     txs = []
     for _ in range(int(nxt())):
@@ -91,7 +96,7 @@ def parse_case(line):
         steps = [step() for _ in range(int(nxt()))]
         txs.append({"mode": mode, "reuse": reuse, "steps": steps})
     assert pos[0] == len(t)
-    return {"regsP": regs_p, "regsC": regs_c, "txl": txl, "ixP": ix_p, "ixC": ix_c, "txs": txs}
+    return {"regsP": regs_p, "regsC": regs_c, "txl": txl, "ixP": ix_p, "ixC": ix_c, "regsD": regs_d, "ixD": ix_d, "txs": txs}
 
 
 def unparse_case(c):
@@ -111,6 +116,17 @@ def unparse_case(c):
                 out.append(str(len(r["items"])))
                 for it in r["items"]:
                     out += it
+    if c.get("regsD") or c.get("ixD"):
+        out += ["D", str(len(c.get("regsD", [])))]
+        for r in c.get("regsD", []):
+            out += r["head"] + [str(len(r["items"]))]
+            for it in r["items"]:
+                out += it
+        out.append(str(len(c.get("ixD", []))))
+        for r in c.get("ixD", []):
+            out.append(str(len(r["items"])))
+            for it in r["items"]:
+                out += it
     out += ["T", str(len(c["txs"]))]
     for tx in c["txs"]:
         out += ["tx", tx["mode"], tx["reuse"], str(len(tx["steps"]))]
@@ -131,7 +147,7 @@ def shrink_candidates(c):
             d = copy.deepcopy(c)
             del d["txs"][i]["steps"][j]
             yield d
-    for key in ("regsP", "regsC", "ixP", "ixC"):
+    for key in ("regsP", "regsC", "regsD", "ixP", "ixC", "ixD"):
         for i in range(len(c.get(key, []))):
             d = copy.deepcopy(c)
             del d[key][i]
